@@ -22,9 +22,91 @@ fn fnv1(b: &[u8]) -> u64 {
     h
 }
 
+/// C13 under the rayon feature: the container families have different band-splitting
+/// implementations (slice splits for TypedImage / TypedImageRef, the trait defaults for cropped
+/// and user views), so "the result does not depend on the container" gets a multi-threaded leg:
+/// every source kind x destination kind must give the bytes of (borrowed source, plain
+/// destination, pool of one).
+fn c13_mode(thorough: bool) {
+    use std::sync::atomic::Ordering;
+    let t0 = std::time::Instant::now();
+    let ns: Vec<usize> = if thorough { vec![2, 3, 4, 5, 7, 8, 16, 32] } else { vec![2, 3, 4, 7] };
+    let hs: Vec<u32> = if thorough { vec![1, 2, 5, 31, 32, 33, 47, 64, 100, 257] } else { vec![1, 5, 33, 47, 64] };
+    let ws: Vec<u32> = if thorough { vec![1, 3, 16, 33, 64, 100] } else { vec![1, 3, 33, 64] };
+    let simd = if CpuExtensions::Avx2.is_supported() { 2 } else { 0 };
+    let one = rayon::ThreadPoolBuilder::new().num_threads(1).build().expect("pool");
+    let pools: Vec<(usize, rayon::ThreadPool)> = ns.iter().map(|&n| (n, rayon::ThreadPoolBuilder::new().num_threads(n).build().expect("pool"))).collect();
+    let mut ctx = Ctx::new("containers under real rayon");
+    let mut cases = 0u64;
+    for &dh in hs.iter() {
+        for &dw in ws.iter() {
+            for &body in BODIES.iter() {
+                for (pi, &pt) in PTS.iter().enumerate() {
+                    for be in [0, simd] {
+                        let c = Case { body, pt, be, dw, dh };
+                        let _ = pi;
+                        if !applicable(&c) || (be == simd && simd == 0) {
+                            continue;
+                        }
+                        cases += 1;
+                        ctx.idx = cases;
+                        SRC_KIND.store(1, Ordering::Relaxed);
+                        let Ok(exp_plain) = guarded(|| one.install(|| run_body_pt(&c, &DstKind::Typed, 0x5A, None))) else { continue };
+                        let Ok(exp_cropped) = guarded(|| one.install(|| run_body_pt(&c, &DstKind::CroppedTyped, 0x5A, None))) else { continue };
+                        for sk in 1..=4usize {
+                            for (n, pool) in pools.iter() {
+                                for (ki, kind) in [DstKind::Typed, DstKind::Tracked(Track::Off, false), DstKind::CroppedTyped, DstKind::CroppedTracked(Track::Off, false)].iter().enumerate() {
+                                    SRC_KIND.store(sk, Ordering::Relaxed);
+                                    let r = guarded(|| pool.install(|| run_body_pt(&c, kind, 0x5A, None)));
+                                    ctx.ops += 1;
+                                    ctx.traces += 1;
+                                    let sk_name = ["", "TypedImageRef", "TypedImage (owned)", "TypedCroppedImage of a TypedImageRef", "TypedCroppedImage of an owned TypedImage"][sk];
+                                    let det = |extra: serde_json::Value| json!({"body": format!("{:?}", body), "pixel": format!("{:?}", pt), "backend": be, "dst": [dw, dh], "src": format!("{:?}", src_size(&c)),
+                                        "source_kind": sk_name, "destination_kind": ki, "pool_size": n, "more": extra});
+                                    match r {
+                                        Err((loc, msg)) => ctx.violation(format!("C13|rayon|panic|{}|{}", loc, panic_class(&msg)), || det(json!({"message": msg}))),
+                                        Ok(out) => {
+                                            let exp = if kind.is_cropped() { &exp_cropped } else { &exp_plain };
+                                            if &out != exp {
+                                                let i = out.iter().zip(exp.iter()).position(|(a, b)| a != b).unwrap_or(0);
+                                                ctx.violation(format!("C13|rayon|{:?}|{:?}|source kind {}|result differs from (borrowed source, pool of one)", body, pt, sk), || det(json!({"first_differing_byte": i})));
+                                            }
+                                            ctx.outcome(fnv1(&out));
+                                        }
+                                    }
+                                }
+                            }
+                        }
+                        SRC_KIND.store(0, Ordering::Relaxed);
+                        ctx.class(((body as u64) << 8) | ((pt as u64) << 4) | be as u64);
+                        ctx.nontrivial += 1;
+                        if cases == 1 || cases % 53 == 0 {
+                            ctx.samples.push(json!({"rayon_container_case": {"body": format!("{:?}", body), "pixel": format!("{:?}", pt), "backend": be, "dst": [dw, dh], "pool_sizes": ns, "source_kinds": 4, "destination_kinds": 4}}));
+                        }
+                    }
+                }
+            }
+        }
+    }
+    ctx.samples.truncate(3);
+    let mut rep = Report::default();
+    rep.absorb_ctx(ctx);
+    rep.cases = cases;
+    rep.planned = cases;
+    rep.spaces.push(json!({"space": "rayon leg: bodies x types x back-ends x shapes x 4 source kinds x 4 destination kinds x pool sizes, against (borrowed source, plain destination, pool of one)", "cases": cases, "pool_sizes": ns, "wall_s": t0.elapsed().as_secs_f64()}));
+    eprintln!("[C13 rayon leg] cases {} runs {} violations {} {:.1}s", cases, rep.ops, rep.sig_counts.len(), t0.elapsed().as_secs_f64());
+    let mut v = report_to_json(&rep);
+    v["planned"] = json!(rep.planned);
+    v["spaces"] = json!(rep.spaces);
+    println!("{}", v);
+}
+
 fn main() {
     let args: Vec<String> = std::env::args().collect();
     install_quiet_panic_hook();
+    if args.get(1).map(|s| s == "c13").unwrap_or(false) {
+        return c13_mode(args.get(2).map(|s| s == "thorough").unwrap_or(false));
+    }
     let thorough = args.get(1).map(|s| s == "thorough").unwrap_or(false);
     let t0 = std::time::Instant::now();
     // auxiliary ThreadSanitizer pass (same bodies, free-running): a reduced list in the quick tier
